@@ -20,13 +20,19 @@ package chainindex
 //@   ensures len(result) == 9 && result[0] == 2 && be64(result, 1) == height
 //@ func prefixBlockIDHeightKey props C19
 //@   pure
-//@   ensures len(result) == 33 && result[0] == 1 && str(result[1:33]) == str(id)
+//@   ensures len(result) == 33 && result[0] == 1 && str(result) == cat("\x01", str(id))
 
 // the abstract index stored in database m
 //@ spec func lastKey() bytes = str(lastAcceptedKey)
+//@ spec func u64AtAny(m map[string][]byte, k bytes) bool = has(m, k) && len(m[k]) == 8
 //@ spec func u64At(m map[string][]byte, k bytes, v int) bool = has(m, k) && len(m[k]) == 8 && be64(m[k], 0) == v
 // every height->id record holds a full 32-byte id (what writeBlock stores)
 //@ spec func wfidx(m map[string][]byte) bool = forall h uint64 :: has(m, str(prefixBlockHeightIDKey(h))) ==> len(m[str(prefixBlockHeightIDKey(h))]) == 32
+
+// mutual consistency of the two mappings: the id recorded at a height maps back to that height
+//@ spec func consistent(m map[string][]byte) bool = forall g uint64 :: has(m, str(prefixBlockHeightIDKey(g))) ==> u64At(m, cat("\x01", m[str(prefixBlockHeightIDKey(g))]), g)
+// every key under the height->id prefix is a full 9-byte key (what writeBlock stores)
+//@ spec func wfkeys(m map[string][]byte) bool = forall q string :: has(m, q) && len(q) >= 1 && q[0] == 2 ==> len(q) == 9
 
 //@ func (*ChainIndex).GetBlockIDAtHeight props C19
 //@   requires wfidx(dbmap(c.db))
@@ -55,8 +61,10 @@ package chainindex
 //@   ensures err == nil ==> has(dbmap(c.db), str(prefixBlockHeightIDKey(h))) && dbmap(c.db)[str(prefixBlockHeightIDKey(h))] == str(id)
 //@   ensures err == nil ==> has(dbmap(c.db), str(prefixBlockKey(h))) && dbmap(c.db)[str(prefixBlockKey(h))] == str(Block.GetBytes(blk))
 //@   ensures err != nil ==> dbmap(c.db) == old(dbmap(c.db))
-//@   ensures forall q string :: q != lastKey() && q != str(prefixBlockIDHeightKey(id)) && q != str(prefixBlockHeightIDKey(h)) && q != str(prefixBlockKey(h)) && !(0 < w && w < h && (q == str(prefixBlockKey(h - w)) || q == str(prefixBlockHeightIDKey(h - w)) || (old(has(dbmap(c.db), str(prefixBlockHeightIDKey(h - w)))) && len(q) == 33 && q[0] == 1 && str(q[1:33]) == old(dbmap(c.db)[str(prefixBlockHeightIDKey(h - w))])))) ==> has(dbmap(c.db), q) == old(has(dbmap(c.db), q)) && dbmap(c.db)[q] == old(dbmap(c.db)[q])
+//@   ensures forall q string :: q != lastKey() && q != str(prefixBlockIDHeightKey(id)) && q != str(prefixBlockHeightIDKey(h)) && q != str(prefixBlockKey(h)) && !(0 < w && w < h && (q == str(prefixBlockKey(h - w)) || q == str(prefixBlockHeightIDKey(h - w)) || (old(has(dbmap(c.db), str(prefixBlockHeightIDKey(h - w)))) && q == cat("\x01", old(dbmap(c.db)[str(prefixBlockHeightIDKey(h - w))]))))) ==> has(dbmap(c.db), q) == old(has(dbmap(c.db), q)) && dbmap(c.db)[q] == old(dbmap(c.db)[q])
 //@   ensures wfidx(dbmap(c.db))
+// the mappings stay mutually consistent provided the new block's id is not recorded at another height
+//@   ensures old(consistent(dbmap(c.db))) && (forall g uint64 :: g != h && old(has(dbmap(c.db), str(prefixBlockHeightIDKey(g)))) ==> old(dbmap(c.db)[str(prefixBlockHeightIDKey(g))]) != str(id)) ==> consistent(dbmap(c.db))
 // retention bound, inductive step: if before the call every stored height is genesis or lies in the
 // window ending at h-1, then afterwards every stored height is genesis or lies in the window ending at h
 // (at most window non-genesis heights besides... i.e. h-w+1..h), so consecutive accepts never retain more
@@ -70,6 +78,7 @@ package chainindex
 //@ func (*ChainIndex).GetLastAcceptedHeight props C19
 //@   ensures dbmap(c.db) == old(dbmap(c.db))
 //@   ensures err == nil ==> u64At(dbmap(c.db), lastKey(), result0)
+//@   ensures err != nil ==> result0 == 0
 //@   ensures dbhealthy(c.db) && has(dbmap(c.db), lastKey()) && len(dbmap(c.db)[lastKey()]) == 8 ==> err == nil
 
 //@ func (*ChainIndex).GetBlockIDHeight props C19
@@ -101,3 +110,19 @@ package chainindex
 //@   ensures dbmap(c.db) == old(dbmap(c.db))
 //@   ensures err == nil ==> has(dbmap(c.db), str(prefixBlockIDHeightKey(blkID))) && len(dbmap(c.db)[str(prefixBlockIDHeightKey(blkID))]) == 8 && has(dbmap(c.db), str(prefixBlockKey(be64(dbmap(c.db)[str(prefixBlockIDHeightKey(blkID))], 0)))) && result0 == fst(Parser.ParseBlock(c.parser, dbmap(c.db)[str(prefixBlockKey(be64(dbmap(c.db)[str(prefixBlockIDHeightKey(blkID))], 0)))]))
 //@   ensures dbhealthy(c.db) && !has(dbmap(c.db), str(prefixBlockIDHeightKey(blkID))) ==> err == database.ErrNotFound
+
+// Start-up cleanup (C19: restart with the same or a different window): only records of heights
+// strictly between genesis and lastAccepted-window are removed -- height-keyed records by their key,
+// id->height records by the height they point to -- nothing is written, and nothing at all changes
+// when there is no window, no last-accepted pointer or the chain is not taller than the window.
+//@ func (*ChainIndex).cleanupOnStartup props C19
+//@   requires wfidx(dbmap(c.db)) && wfkeys(dbmap(c.db)) && consistent(dbmap(c.db))
+//@   loop 1 invariant forall q string :: !bput(batch, q)
+//@   loop 1 invariant forall q string :: bdel(batch, q) && len(q) >= 1 && q[0] != 1 ==> len(q) == 9 && (q[0] == 0 || q[0] == 2) && 0 < be64(q, 1) && be64(q, 1) < thresholdHeight
+//@   loop 1 invariant forall q string :: bdel(batch, q) && len(q) >= 1 && q[0] == 1 ==> has(dbmap(c.db), q) && len(dbmap(c.db)[q]) == 8 && 0 < be64(dbmap(c.db)[q], 0) && be64(dbmap(c.db)[q], 0) < thresholdHeight
+//@   loop 1 invariant forall q string :: bdel(batch, q) ==> len(q) >= 1
+//@   loop 1 invariant dbmap(c.db) == old(dbmap(c.db))
+//@   ensures forall q string :: has(dbmap(c.db), q) ==> old(has(dbmap(c.db), q)) && dbmap(c.db)[q] == old(dbmap(c.db)[q])
+//@   ensures forall q string :: old(has(dbmap(c.db), q)) && !has(dbmap(c.db), q) ==> c.config.AcceptedBlockWindow != 0 && u64AtAny(old(dbmap(c.db)), lastKey()) && len(q) >= 1 && (q[0] == 0 || q[0] == 1 || q[0] == 2)
+//@   ensures forall q string :: old(has(dbmap(c.db), q)) && !has(dbmap(c.db), q) && q[0] != 1 ==> len(q) == 9 && 0 < be64(q, 1) && be64(q, 1) + c.config.AcceptedBlockWindow < be64(old(dbmap(c.db))[lastKey()], 0)
+//@   ensures forall q string :: old(has(dbmap(c.db), q)) && !has(dbmap(c.db), q) && q[0] == 1 ==> len(old(dbmap(c.db))[q]) == 8 && 0 < be64(old(dbmap(c.db))[q], 0) && be64(old(dbmap(c.db))[q], 0) + c.config.AcceptedBlockWindow < be64(old(dbmap(c.db))[lastKey()], 0)
